@@ -98,6 +98,7 @@ type Exec struct {
 	Progress  int
 	ForkTrace map[string]int
 	forkSite  string
+	onThreadEnd func(st *State, end string)
 	Debug     bool
 	globals   map[*ssa.Global]*Ptr
 	cutsets   map[*ssa.Function]*[128]bool
@@ -508,6 +509,12 @@ func (e *Exec) explore(st *State, depth int) {
 }
 
 func (e *Exec) pathEnd(st *State, end string) {
+	if st.rec != nil {
+		if e.onThreadEnd != nil {
+			e.onThreadEnd(st, end)
+		}
+		return
+	}
 	r := e.Res
 	r.Paths++
 	r.Ends[end]++
@@ -989,6 +996,7 @@ func (e *Exec) step(st *State, fr *Frame, in ssa.Instruction) string {
 			return ""
 		}
 		e.monitorStore(st, p, fr, in)
+		e.recAccess(st, p, true, fr, in)
 		st.store(p, val)
 		fr.idx++
 	case *ssa.MapUpdate:
@@ -1000,6 +1008,7 @@ func (e *Exec) step(st *State, fr *Frame, in ssa.Instruction) string {
 			return ""
 		}
 		e.monitorStore(st, &Ptr{Obj: m.Obj}, fr, in)
+		e.recAccess(st, &Ptr{Obj: m.Obj}, true, fr, in)
 		e.mapUpdate(st, m, k, v)
 		fr.idx++
 	case *ssa.Send:
@@ -1008,6 +1017,11 @@ func (e *Exec) step(st *State, fr *Frame, in ssa.Instruction) string {
 		if ch.Obj < 0 {
 			e.endPath(st, "blocked")
 			e.Res.Notes["blocked forever: send on nil channel"]++
+			return ""
+		}
+		if e.sharedChan(st, ch) {
+			e.recChan(st, EvSend, ch, nil, e.instrPos(fr, in))
+			fr.idx++
 			return ""
 		}
 		cv := st.heap[ch.Obj].V.(*ChanV)
@@ -1177,6 +1191,7 @@ func (e *Exec) unop(st *State, fr *Frame, x *ssa.UnOp) (Value, bool) {
 				e.runtimePanic(st, "invalid memory address or nil pointer dereference")
 				return nil, true
 			}
+			e.recAccess(st, p, false, fr, x)
 			return st.load(p), false
 		case *BytePtr:
 			return e.atT(p.S, p.Idx), false
@@ -1192,6 +1207,14 @@ func (e *Exec) unop(st *State, fr *Frame, x *ssa.UnOp) (Value, bool) {
 		ch := v.(*ChanRef)
 		if ch.Obj < 0 {
 			unsupportedf("receive from nil channel")
+		}
+		if e.sharedChan(st, ch) {
+			e.recChan(st, EvRecv, ch, nil, e.instrPos(fr, x))
+			z := e.pooledObject(st, x.X.Type().Underlying().(*types.Chan).Elem())
+			if x.CommaOk {
+				return &TupleV{E: []Value{z, c.True}}, false
+			}
+			return z, false
 		}
 		cv := st.heap[ch.Obj].V.(*ChanV)
 		if len(cv.Q) == 0 {
@@ -1673,6 +1696,7 @@ func (e *Exec) lookup(st *State, fr *Frame, x *ssa.Lookup) (Value, bool) {
 	if m.Obj < 0 {
 		return mk(zero, false), false
 	}
+	e.recAccess(st, &Ptr{Obj: m.Obj}, false, fr, x)
 	mv := st.heap[m.Obj].V.(*MapV)
 	var alts []Alt
 	var noneConj []*sym.Term
@@ -1878,6 +1902,7 @@ func (e *Exec) rangeOp(st *State, fr *Frame, x *ssa.Range) (Value, bool) {
 	if m.Obj < 0 {
 		mv = &MapV{}
 	} else {
+		e.recAccess(st, &Ptr{Obj: m.Obj}, false, fr, x)
 		mv = st.heap[m.Obj].V.(*MapV)
 	}
 	n := len(mv.K)
@@ -1957,6 +1982,35 @@ func (e *Exec) selectOp(st *State, fr *Frame, x *ssa.Select) (Value, bool) {
 			}
 		}
 		return out
+	}
+	if len(x.States) == 1 {
+		if ch := e.get(st, fr, x.States[0].Chan).(*ChanRef); e.sharedChan(st, ch) {
+			// recording mode: the outcome is a symbolic result constrained by the schedule
+			s := x.States[0]
+			ok := e.freshVar("sel", 0)
+			pos := e.instrPos(fr, x)
+			if s.Dir == types.RecvOnly {
+				e.recChan(st, EvTryRecv, ch, ok, pos)
+				elemT := s.Chan.Type().Underlying().(*types.Chan).Elem()
+				got := mkRes(0, true, []Value{e.pooledObject(st, elemT)})
+				none := mkRes(-1, false, recvZero())
+				alts := []Alt{
+					{Cond: ok, Apply: func(s2 *State) { f := s2.top(); e.set(f, x, got); f.idx++ }},
+					{Cond: c.Not(ok), Apply: func(s2 *State) { f := s2.top(); e.set(f, x, none); f.idx++ }},
+				}
+				e.forkAlts(st, alts, st.Forks)
+				return nil, true
+			}
+			e.recChan(st, EvTrySend, ch, ok, pos)
+			sent := mkRes(0, false, recvZero())
+			none := mkRes(-1, false, recvZero())
+			alts := []Alt{
+				{Cond: ok, Apply: func(s2 *State) { f := s2.top(); e.set(f, x, sent); f.idx++ }},
+				{Cond: c.Not(ok), Apply: func(s2 *State) { f := s2.top(); e.set(f, x, none); f.idx++ }},
+			}
+			e.forkAlts(st, alts, st.Forks)
+			return nil, true
+		}
 	}
 	for i, s := range x.States {
 		ch := e.get(st, fr, s.Chan).(*ChanRef)
